@@ -18,7 +18,7 @@ CLAIMED = {
         "operation); TLC explores all boundary sets x zero intervals of small files x all interleavings x cancellation and checks that the "
         "aggregated index equals the single-stream chain of the rolling-hash rule. The real IndexFromFile runs under a gate scheduler "
         "on generated files; the instance (boundary and null positions) is computed by an independent implementation of the rule and "
-        "Trace_ParChunker.tla validates every event, every chunk and the returned index (IDs, sizes, parameters). The real `desync make` with 1/3/8 workers is compared with the library's single-stream chunk table (CliOutcome.tla). `desync chunk -S` is compared with the library chunker from that offset.",
+        "Trace_ParChunker.tla validates every event, every chunk and the returned index (IDs, sizes, parameters). The real `desync make` with 1/3/8 workers is compared with the library's single-stream chunk table (CliOutcome.tla). `desync chunk -S` is compared with the library chunker from that offset. Every run starts with a pinned 1009-byte instance (finding F30: a worker that skips a finished follower) under a followers-first schedule; the aggregator in the specification follows the worker's next pointer.",
    note="Trusts the independent buzhash/rule oracle (cross-checked with the casync fixture) and SHA512/256 as leaves; read fragmentation of "
         "the single-stream Chunker is covered by the Chunker driver when listed in the evidence.",
    technique="TLA+ spec + TLC model checking; trace validation of the hook-instrumented implementation under randomised/PCT schedules",
